@@ -38,7 +38,8 @@ def total(ctx: Any) -> List[Ob]:
     def discharge(fn: FuncInfo, node: ast.AST, key: str) -> bool:
         return fn is f and key == 'builtins.IndexError' and la.proved(node)
 
-    mr = MayRaise(ctx, lambda g: g is f, discharge=discharge)
+    # the validator is handed any Python string (lone surrogates included): a strict encode inside it can raise
+    mr = MayRaise(ctx, lambda g: g is f, discharge=discharge, strict_text=True)
     mr.analyse([f])
     ctx.counters['may_raise'] = mr.stats()
     esc = mr.escaping(f)
@@ -566,6 +567,6 @@ EXPLANATION = (
     'escape. C19.REGEX (decided): regex syntax trees -- start anchor, (set)+, end-of-STRING anchor, exact character sets. '
     'C19.CASCADE (necessary): every accepting path of the validator has evaluated every documented rule of its mode (no fast path around a check). C19.CONST (decided): 256 / 15 / 63 limits as normalised comparisons at their use sites, trailers. C19.TXT (necessary condition): '
     'writer/reader agreement of the TXT item framing. Not decided: agreement of the whole cascade with the grammar on every string [X]; '
-    'lone surrogates (UnicodeEncodeError) are excluded by assumption A4.'
+    'lone surrogates: assumption A4 is not made here -- a strict encode inside the validator is charged UnicodeEncodeError and has to be contained (F25).'
 )
 RULES = [total, regex, const, cascade, table, txt]
